@@ -41,6 +41,10 @@ CHECKS['C19'] = dict(level='proof',
    text='The ManageSieve dispatch loop is proved to reach FilterState.run (the only path to the script store) and UNAUTHENTICATE only with a state, AUTHENTICATE/STARTTLS only without one and for their own command, and to let no exception escape; the dict FilterSet operations are proved against the abstract (name -> bytes, active?) map with full frames, including that every refusal leaves the store unchanged, delete refuses the active name and rename keeps content and active status. Counter-models are rebuilt as real objects and replayed on CPython. A bounded comparison of the real server with a script-store model (before/after authentication, two users) is reported separately.',
    note='FilterState.run (command -> FilterSet call mapping, response rendering) and per-user isolation through config.set_cache are covered by the bounded run only; script names are opaque values.',
    ref='6 C19')
+CHECKS['C17'] = dict(level='proof',
+   text='Per-function facts that make \\Recent exactly-once and never stored are proved from the real source: \\Recent is never a permanent flag nor kept in a session flag set (PermanentFlags.__init__, SessionFlags.update/get/add_recent); SelectedSet.any_selected never returns a read-only selection; Message.copy never inherits a pending \\Recent; dict append never stores \\Recent and stores the recent bit it is given; dict claim_recent hands every stored-recent message to the claiming session and clears the bit in one atomic segment; BaseSession append/copy/move give add_recent only to a read-write selection and store a message recent exactly when no selection took it; select_mailbox claims only for read-write selections. A bounded run of delivery/select/examine/close histories on the real server is reported separately.',
+   note='Exactly-once over whole histories is the composition of these facts (paper argument) plus the bounded run; the backend is abstract in the BaseSession contracts; atomicity of claim_recent rests on NoYieldUnderLock (C04); maildir not covered.',
+   ref='6 C17')
 NOT_YET = {}
 def main():
     props = [json.loads(l) for l in open(os.path.join(HERE, 'properties.jsonl'))]
